@@ -61,6 +61,7 @@ MUT = [
     ('C29-nonce-off-by-one', 'C29', 'src/encryption/capsule_stream.rs', None, None, 'encryption config only (hand-tested while writing the rule)'),
     ('C42-vacuum-reads-all', 'C42', M, "            .filter(|frame| frame.status == FrameStatus::Active)\n            .cloned()\n            .collect();\n", "            .cloned()\n            .collect();\n", 'EQUIVALENT: vacuum also reads the payloads of deleted frames (they are never written back: the write loop tests Active) - the check must stay silent'),
     ('C42-offset-after-advance', 'C42', M, "                    frame.payload_offset = cursor;\n                    frame.payload_length = bytes.len() as u64;\n                    cursor += bytes.len() as u64;", "                    frame.payload_length = bytes.len() as u64;\n                    cursor += bytes.len() as u64;\n                    frame.payload_offset = cursor;", 'vacuum records the end of the payload as its offset'),
+    ('C23-hashmap-persisted', 'C23', 'src/types/memories_track.rs', "    entries: BTreeMap<String, Vec<MemoryCardId>>,", "    entries: HashMap<String, Vec<MemoryCardId>>,", 'SlotIndex goes back to a serde-serialised HashMap (the state before fix 00289e5)'),
     ('C40-end-batch-order', 'C40', M, "        self.wal.flush()?;\n        self.wal.set_skip_sync(false);", "        self.wal.set_skip_sync(false);\n        self.wal.flush()?;",
      'EQUIVALENT: end_batch restores sync before flushing (flush syncs unconditionally) - the check must stay silent'),
 ]
